@@ -161,7 +161,7 @@ func (c15) Gen(rt *rapid.T, thorough bool) any {
 		// layout element
 		s.Attrs = append(s.Attrs, PAttr{Name: "layout", How: rapid.SampledFrom([]string{"omit", "set", "set", "bad", "untyped"}).Draw(rt, "layout_how"),
 			Val: rapid.SampledFrom([]string{"TextLayout", "JSONLayout"}).Draw(rt, "layout_type")})
-		s.Attrs = append(s.Attrs, PAttr{Name: "loggerLayout", How: rapid.SampledFrom([]string{"none", "none", "omit", "set", "bad", "empty"}).Draw(rt, "ll_how"),
+		s.Attrs = append(s.Attrs, PAttr{Name: "loggerLayout", How: rapid.SampledFrom([]string{"none", "none", "omit", "set", "bad", "empty", "dangling", "unknown-logger", "unknown-appender", "no-ref"}).Draw(rt, "ll_how"),
 			Val: rapid.SampledFrom([]string{"TextLayout", "JSONLayout"}).Draw(rt, "ll_type")})
 		s.Attrs = append(s.Attrs, PAttr{Name: "width", How: rapid.SampledFrom([]string{"omit", "set"}).Draw(rt, "width_how"), Val: rapid.SampledFrom([]string{"5", "48", "120"}).Draw(rt, "width")})
 	case "mutate":
@@ -285,6 +285,19 @@ func (c c15) runProbe(x *Exec, s *C15Scn) {
 			case "empty":
 				cfg["logger.root.layout.type"] = ""
 				wantErr = "unknown (empty) type of the logger's optional layout element"
+			case "dangling":
+				cfg["logger.root."+caseKey("appenderRef", s.Style.KeyCase)+".ref"] = "ghost"
+				wantErr = "dangling appender reference"
+			case "unknown-logger":
+				cfg["logger.root.type"] = "NoSuchLogger"
+				wantErr = "unknown logger type"
+			case "unknown-appender":
+				cfg["appender.other.type"] = "NoSuchAppender"
+				wantErr = "unknown appender type"
+			case "no-ref":
+				delete(cfg, "logger.root."+caseKey("appenderRef", s.Style.KeyCase)+".ref")
+				cfg["logger.root.level"] = "INFO"
+				wantErr = "missing required element: a Logger without any appender reference"
 			}
 			continue
 		case "layout":
